@@ -103,6 +103,9 @@ structure Main (cs : List Chunk) (v : Variant) (c : Cfg) : Prop where
   noRead : v ≠ .forked → readIdx c.prog = []
   nocmeta : v ≠ .forked → ∀ t, c.fs.temp = some t → ∀ j, t.get (.cmeta j) = none
   unl : UnlinkOK c.prog
+  collectOnce : ∀ pre post, c.prog = pre ++ .collect :: post → notCollected post = false
+  lateItems : (readIdx c.prog ≠ [] ∨ ∃ i, Item.op (.unlink .temp (.cmeta i)) ∈ c.prog) →
+    20 ≤ hr c.prog ∧ notCollected c.prog = false
 
 /-- the invariant of the saver machine running the current protocol for chunk list `cs` under variant `v` -/
 structure Inv (cs : List Chunk) (v : Variant) (c : Cfg) : Prop where
@@ -256,7 +259,7 @@ theorem inv_failedFlag {cs : List Chunk} {v : Variant} {c : Cfg} (h : Inv cs v c
   · intro hh h16 h25
     have m := h.main hh h16 h25
     exact ⟨m.chunksMd, m.cover, m.nodup, m.substd, m.wstd, m.awaited, m.reads, m.names, m.mdOpen, m.sj, m.noApp,
-      m.noRead, m.nocmeta, m.unl⟩
+      m.noRead, m.nocmeta, m.unl, m.collectOnce, m.lateItems⟩
 
 theorem inv_fail {cs : List Chunk} {v : Variant} {c : Cfg} (h : Inv cs v c) : Inv cs v c.fail := by
   unfold Cfg.fail
@@ -850,6 +853,25 @@ theorem main_start {cs : List Chunk} {v : Variant} {c : Cfg} (hprog : c.prog = m
     rw [ht] at ht'; injection ht' with ht'; subst ht'
     exact hnone _ (by simp)
   · rw [hprog]; exact unlinkOK_main v cs
+  · intro pre post he
+    rw [hprog] at he
+    have hnm : Item.collect ∉ mainItems v cs := by
+      intro hin; have := rank_mainItems _ hin; simp [rank] at this
+    have hce : closeItems = [.waitQuiet, .markClosed, .checkTemp] ++ .collect :: (flushItems .last ++ [.op (.renameDir .temp .final), .finish]) := by
+      simp [closeItems]
+    rw [hce, ← List.append_assoc] at he
+    have hna : Item.collect ∉ mainItems v cs ++ [.waitQuiet, .markClosed, .checkTemp] := by
+      simp [hnm]
+    obtain ⟨_, hpost⟩ := split_unique hna (by simp [flushItems]) he
+    rw [hpost]; simp [notCollected, flushItems]
+  · intro hl
+    exfalso
+    rcases hl with hl | ⟨i, hi⟩
+    · rw [hprog, readIdx_main] at hl; exact hl rfl
+    · rw [hprog] at hi
+      rcases List.mem_append.mp hi with h | h
+      · have := rank_mainItems _ h; simp [rank] at this
+      · simp [closeItems, flushItems] at h
 
 
 
